@@ -18,14 +18,16 @@ __all__ = [
 _yaml_error_section_for_axis = {0: "x_errors", 1: "y_errors", None: "errors"}
 
 
-def add_error_to_container(err_type, container_obj, **kwargs):
+def add_error_to_container(err_type, container_obj, enabled=True, **kwargs):
     # TODO: check kwargs explicitly
     if err_type == "simple":
-        container_obj.add_error(**kwargs)
+        _name = container_obj.add_error(**kwargs)
     elif err_type == "matrix":
-        container_obj.add_matrix_error(**kwargs)
+        _name = container_obj.add_matrix_error(**kwargs)
     else:
         raise TypeError("Unknown error type '{}'. " "Valid: {}".format(err_type, ("simple", "matrix")))
+    if not enabled:
+        container_obj.disable_error(_name)
     return container_obj
 
 
@@ -64,6 +66,8 @@ def write_errors_to_yaml(container, yaml_doc):
                     # TODO: public interface for _corr_coeff!
                 )
             )
+            if not _err_dict.get("enabled", True):
+                _yaml_section[-1]["enabled"] = False
         elif _err_obj.__class__ is MatrixGaussianError:
             _mtype = _err_obj._matrix_type_at_construction  # TODO: public interface!
             _yaml_section.append(
@@ -74,6 +78,8 @@ def write_errors_to_yaml(container, yaml_doc):
                     relative=_is_relative,
                 )
             )
+            if not _err_dict.get("enabled", True):
+                _yaml_section[-1]["enabled"] = False
             if _mtype == "covariance":
                 if _is_relative:
                     _yaml_section[-1]["matrix"] = _err_obj.cov_mat_rel  # .tolist()
@@ -173,7 +179,7 @@ def process_error_sources(container_obj, yaml_doc):
             raise ValueError("Missing required key '%s' for error specification" % e.args[0])
 
         # add error to data container
-        container_obj = add_error_to_container(_err_type, container_obj, **_add_kwargs)
+        container_obj = add_error_to_container(_err_type, container_obj, enabled=_err.get("enabled", True), **_add_kwargs)
 
     return container_obj, yaml_doc
 
